@@ -31,7 +31,7 @@ PROPS = {
         undecided=['order of accuracy on general (sinusoidal) signals (a limit statement)']),
     'C17': dict(
         rules=[rot.rot_series, rot.rot_exp, rot.euler_inv, rot.euler_conv, errmodel.es_first,
-               geo.unit_const],
+               geo.unit_const, lambda c: forms.form_agree(c, ('error_model', 'transform'), 2)],
         decided=['small-angle arm is the Maclaurin truncation of the closed form and continuous '
                  'across the branch to 2^-53',
                  'rotation-vector routine is the exponential map (Rodrigues coefficients as '
@@ -246,7 +246,8 @@ PROPS = {
     'C05': dict(
         rules=[rot.euler_inv, errmodel.es_inv, errmodel.es_first, errmodel.es_perturb,
                integrator.es_copy, integrator.es_2drows, geo.geo_perturb, geo.role_radii,
-               geo.unit_const],
+               geo.unit_const, lambda c: forms.form_agree(c, ('error_model',), 1),
+               forms.form_agree_tables],
         decided=['output->internal is a left inverse of internal->output by construction (same '
                  'builder, inv, S E = I_7)',
                  'a correction changes the state, to first order, by exactly -T_out x in output '
